@@ -111,7 +111,7 @@ class Comp:
             t = {"tensor_shape_map": V("σ", "Scope"), "registered_tensor_dtypes": V("registered", "Reg"), "_hinted_tensors": Obj("queue", "queue")}
         elif k == "ann":
             t = {"multiaxis_index": V(f"{b}.multiIdx", "OptNat"), "multiaxis_name": V(f"{b}.multiName", "OptName"), "expected_shape": V(f"{b}.dims", "Dims"),
-                 "_literal_dims": V(f"{b}.literalDims", "Pairs"), "DTYPES": V(f"{b}.cls", "DTYPES")}
+                 "_literal_dims": V(f"{b}.literalDims", "Pairs"), "DTYPES": V(f"{b}.cls", "DTYPES"), "optional": V(f"{b}.optional", "Bool")}
         elif k == "tensor":
             t = {"shape": V(f"{b}.shape", "Shape"), "ndim": V(f"{b}.shape.length", "Nat"), "dtype": V(f"{b}.dt", "Dtype")}
         elif k == "entry":
@@ -233,6 +233,8 @@ class Comp:
                 return V(t if isinstance(op, ast.In) else f"(!{t})", "Bool")
             if isinstance(op, (ast.Is, ast.IsNot)):
                 a = self.expr(l, env, hoist)
+                if isinstance(r, ast.Constant) and r.value is None and isinstance(a, Obj) and a.kind == "value":
+                    return V(f"{a.base}.isNoneV" if isinstance(op, ast.Is) else f"(!{a.base}.isNoneV)", "Bool")
                 if isinstance(r, ast.Constant) and r.value is None and isinstance(a, V) and a.ty in ("OptNat", "OptName"):
                     if a.text in env.some:
                         return V("true" if isinstance(op, ast.IsNot) else "false", "Bool")
@@ -309,6 +311,9 @@ class Comp:
             if _src(kw["expected"]) != "self.DTYPES" or _src(kw["received"]) != "{tensor.dtype}":
                 raise TErr(f"DLTypeDtypeError arguments `{_src(call)}`")
             return f".reject (.dtype {self.expr(kw['tensor_name'], env, hoist).text})"
+        if cls == "DLTypeUnsupportedTensorTypeError":
+            need("actual_type")
+            return ".reject .unsupported"
         if cls == "DLTypeDuplicateError":
             need("tensor_name")
             return f".reject (.duplicate {self.expr(kw['tensor_name'], env, hoist).text})"
@@ -344,6 +349,35 @@ class Comp:
             hoist: list = []
             r = self.report(s.exc, env, hoist)
             return self.wrap(hoist, r, ind)
+        if isinstance(s, ast.If) and _src(s.test) == "not any((isinstance(tensor, T) for T in _dtypes.SUPPORTED_TENSOR_TYPES))" and not s.orelse \
+                and isinstance(env.objs.get("tensor"), Obj) and env.objs["tensor"].kind == "value":
+            # the value is one of the supported array types: from here on it is a tensor
+            hoist = []
+            b = self.block(s.body, 0, env.copy(), lambda e, i2: (_ for _ in ()).throw(TErr("the unsupported-type branch falls through")), ind + "  ")
+            e1 = env.copy()
+            e1.objs["tensor"] = Obj("tensor", "t")
+            return f"match {env.objs['tensor'].base} with\n{ind}| .tensor t =>\n{ind}  {P(rest(e1, ind + '  '))}\n{ind}| _ =>\n{ind}  {P(b)}"
+        if isinstance(s, ast.If) and isinstance(s.test, ast.Compare) and len(s.test.ops) == 1 and isinstance(s.test.ops[0], (ast.Is, ast.IsNot)) \
+                and isinstance(s.test.comparators[0], ast.Constant) and s.test.comparators[0].value is None and isinstance(s.test.left, ast.Name) \
+                and isinstance(env.objs.get(s.test.left.id), Obj) and env.objs[s.test.left.id].kind == "optann":
+            # `if annotation is None:` on an optional annotation: the other branch knows the annotation
+            nm = s.test.left.id
+            o = env.objs[nm]
+            e_some, e_none = env.copy(), env.copy()
+            e_some.objs[nm] = Obj("ann", "ann")
+            is_none = isinstance(s.test.ops[0], ast.Is)
+            body_env, else_env = (e_none, e_some) if is_none else (e_some, e_none)
+            b = self.block(s.body, 0, body_env, lambda e, i2: self.block(stmts, i + 1, e, kont, i2), ind + "  ")
+            o2 = self.block(s.orelse, 0, else_env, lambda e, i2: self.block(stmts, i + 1, e, kont, i2), ind + "  ")
+            none_t, some_t = (b, o2) if is_none else (o2, b)
+            return f"match {o.base} with\n{ind}| none =>\n{ind}  {P(none_t)}\n{ind}| some ann =>\n{ind}  {P(some_t)}"
+        if isinstance(s, ast.Expr) and isinstance(s.value, ast.Call) and _src(s.value.func) == "self._hinted_tensors.append" and len(s.value.args) == 1 \
+                and isinstance(s.value.args[0], ast.Call) and _src(s.value.args[0].func) == "_ConcreteType" and len(s.value.args[0].args) == 4 and not s.value.args[0].keywords:
+            a = [self.expr(x, env, []) for x in s.value.args[0].args]
+            if not (isinstance(a[0], V) and a[0].ty == "Nat" and isinstance(a[1], V) and a[1].ty == "Name" and isinstance(a[2], Obj) and a[2].kind == "tensor"
+                    and isinstance(a[3], Obj) and a[3].kind == "ann"):
+                raise TErr(f"`{_src(s)}`: the queue entry is not (index, name, tensor, annotation)")
+            return f"let appended := some {{ argIndex := {a[0].text}, name := {a[1].text}, tensor := {a[2].base}, ann := {a[3].base} }}\n{ind}" + rest(env)
         if isinstance(s, ast.If):
             # `if x is not None:` binds the value of x in the branch
             t = s.test
@@ -531,6 +565,26 @@ def runEntries (acc : Acc) : CState → List Entry → Outcome CState
 """
 
 
+ADD_SKELETON = """/-- loop skeleton (fixed text): `for idx, (annotation, value) in enumerate(zip(annotations, values, strict=True))` — the zip is
+    lazy: a length mismatch raises ValueError only when the shorter sequence runs out -/
+def addGo (name : Name) : Nat → List (Option Ann) → List Value → Outcome (List Entry)
+  | _, [], [] => .ok []
+  | _, [], _ :: _ => .pyExc .valueError
+  | _, _ :: _, [] => .pyExc .valueError
+  | i, a :: as, v :: vs =>
+    match addStep name i a v with
+    | .ok none => addGo name (i + 1) as vs
+    | .ok (some e) =>
+      match addGo name (i + 1) as vs with
+      | .ok es => .ok (e :: es)
+      | r => r
+    | .reject r => .reject r
+    | .pyExc x => .pyExc x
+    | .unmodelled => .unmodelled
+
+"""
+
+
 def gen_core(lib_dir: str, header: str) -> str:
     def parse(f):
         with open(os.path.join(lib_dir, f)) as fh:
@@ -596,6 +650,25 @@ def gen_core(lib_dir: str, header: str) -> str:
     env.objs["self"] = Obj("ctx", "self")
     tensor_body = c.block(w.body, 0, env, lambda e, ind: ".ok { σ := σ, registered := registered }", "  ")
 
+    # 4. add ----------------------------------------------------------------------------------------------
+    f = _find_method(ctx_mod, "DLTypeContext", "add")
+    if [a.arg for a in f.args.args] != ["self", "name", "tensor_values", "dltype_annotation_tup"]:
+        raise TErr("add: parameters")
+    body = _strip(f.body)
+    if not (len(body) == 2 and _src(body[0]) == "if dltype_annotation_tup is None:\n    return" and isinstance(body[1], ast.For)):
+        raise TErr("add: expected `if dltype_annotation_tup is None: return` and one loop")
+    loop = body[1]
+    if _src(loop.iter) != "enumerate(zip(dltype_annotation_tup, tensor_values, strict=True))" or _src(loop.target) != "(idx, (dltype_annotation, tensor))" or loop.orelse:
+        raise TErr("add: the loop is not `for idx, (annotation, tensor) in enumerate(zip(annotations, values, strict=True))`")
+    c = Comp(lambda e, ind: ".ok appended")
+    env = Env()
+    env.objs["self"] = Obj("ctx", "self")
+    env.vars["idx"] = V("idx", "Nat")
+    env.vars["name"] = V("name", "Name")
+    env.objs["dltype_annotation"] = Obj("optann", "a")
+    env.objs["tensor"] = Obj("value", "v")
+    add_step = c.block(loop.body, 0, env, lambda e, ind: ".ok appended", "  ")
+
     out = header
     out += "import DltypeModel.Context\nset_option linter.unusedVariables false\nnamespace Dltype.Gen\nopen Dltype\n\n"
     out += "/-- Python indexing of a shape: a negative index counts from the end, out of range is IndexError (`none`) -/\n"
@@ -612,5 +685,218 @@ def gen_core(lib_dir: str, header: str) -> str:
     out += "/-- the body of the `while` loop of `DLTypeContext.assert_context` for the queue entry `e` -/\n"
     out += "def tensorBody (acc : Acc) (σ : Scope) (registered : List Name) (e : Entry) : Outcome CState :=\n  " + tensor_body + "\n\n"
     out += QUEUE_SKELETON
+    out += "/-- `value is None` -/\ndef _root_.Dltype.Value.isNoneV : Value → Bool\n  | .none => true\n  | _ => false\n\n"
+    out += "/-- the body of the loop of `DLTypeContext.add`: what (if anything) is appended to the queue for position `idx` -/\n"
+    out += "def addStep (name : Name) (idx : Nat) (a : Option Ann) (v : Value) : Outcome (Option Entry) :=\n  let appended : Option Entry := none\n  " + add_step + "\n\n"
+    out += ADD_SKELETON
+    out += "end Dltype.Gen\n"
+    return out
+
+
+# =====================================================================================================================
+# DLTypeDimensionExpression.evaluate  ->  Generated/EvalLoop.lean
+# =====================================================================================================================
+#
+# A Python list used as a stack is rendered with its top at the head of a Lean list:
+#   stack.append(x) = x :: stack     x = stack.pop() = uncons (IndexError on [])     len(stack) = stack.length
+#   stack[0] (the bottom) = stack.getLast?          (only read after `len(stack) != 1` was excluded)
+# The result type of one loop iteration is `Except EvalResult (List Int)`: `.error r` = evaluation stops with r.
+
+EVAL_SKELETON = """/-- loop skeleton (fixed text): `for token in self.parsed_expression` -/
+def evalLoop : List PItem → List Int → Scope → Except EvalResult (List Int)
+  | [], stack, _ => .ok stack
+  | token :: rest, stack, σ =>
+    match evalStep token stack σ with
+    | .ok stack' => evalLoop rest stack' σ
+    | .error r => .error r
+
+"""
+
+OPNAME = """/-- enum member name of a model operator (fixed text; the symbols are tied to the source by `Tables.operator_symbols`) -/
+def opName : Op → String
+  | .bin .add => "ADD" | .bin .sub => "SUB" | .bin .mul => "MUL" | .bin .exp => "EXP" | .bin .div => "DIV"
+  | .fn .min => "MIN" | .fn .max => "MAX" | .fn .isqrt => "ISQRT"
+
+/-- the value of an operator method: `none` = it fell through to `raise NotImplementedError` -/
+def opResult : Option Py.R → EvalResult
+  | some r => r
+  | none => .unmodelled
+
+"""
+
+
+class EvalComp:
+    def __init__(self):
+        self.c = Comp(None)
+
+    def cond(self, e, env) -> str:
+        h: list = []
+        t = self.c.to_bool(self.c.expr(e, env, h))
+        if h:
+            raise TErr(f"partial operation inside the condition `{_src(e)}`")
+        return t
+
+    def raise_text(self, s: ast.Raise) -> str:
+        exc = s.exc
+        name = exc.func.id if isinstance(exc, ast.Call) and isinstance(exc.func, ast.Name) else (exc.id if isinstance(exc, ast.Name) else None)
+        m = {"ValueError": ".valueError", "TypeError": ".typeError", "IndexError": ".indexError", "ZeroDivisionError": ".zeroDivision"}
+        if name not in m:
+            raise TErr(f"raise of `{_src(exc)}`")
+        return f".pyExc {m[name]}"
+
+    def value(self, e, env, locs) -> tuple[str, str]:
+        """an expression pushed on the stack: (kind, text); kind 'int' = a plain integer, 'res' = an EvalResult"""
+        if isinstance(e, ast.Name) and e.id in locs:
+            return "int", locs[e.id]
+        if isinstance(e, ast.Subscript) and _src(e.value) == "scope" and isinstance(e.slice, ast.Name) and e.slice.id in locs and locs[e.slice.id].startswith("NAME:"):
+            return "lookup", locs[e.slice.id][5:]
+        if isinstance(e, ast.Call) and isinstance(e.func, ast.Attribute) and isinstance(e.func.value, ast.Name) and locs.get(e.func.value.id, "").startswith("OP:") and not e.keywords:
+            o = locs[e.func.value.id][3:]
+            args = []
+            for a in e.args:
+                k, t = self.value(a, env, locs)
+                if k != "int":
+                    raise TErr(f"operand `{_src(a)}`")
+                args.append(t)
+            if e.func.attr == "evaluate_unary" and len(args) == 1:
+                return "res", f"opResult (evaluateUnary (opName {o}) {args[0]})"
+            if e.func.attr == "evaluate" and len(args) == 2:
+                return "res", f"opResult (evaluate (opName {o}) {args[0]} {args[1]})"
+        raise TErr(f"pushed value `{_src(e)}`")
+
+    def body(self, stmts, i, env, locs, ind) -> str:
+        """statements of one loop iteration; falling off the end / `continue` = `.ok stack`"""
+        if i == len(stmts):
+            return ".ok stack"
+        s = stmts[i]
+        if isinstance(s, ast.Expr) and isinstance(s.value, ast.Constant):
+            return self.body(stmts, i + 1, env, locs, ind)
+        if isinstance(s, ast.Continue):
+            return ".ok stack"
+        if isinstance(s, ast.Raise):
+            return f".error ({self.raise_text(s)})"
+        if isinstance(s, ast.Assign) and len(s.targets) == 1 and isinstance(s.targets[0], ast.Name) and isinstance(s.value, ast.Constant) and isinstance(s.value.value, str):
+            return self.body(stmts, i + 1, env, locs, ind)  # msg = "..."
+        if isinstance(s, ast.Assign) and len(s.targets) == 1 and isinstance(s.targets[0], ast.Name) and isinstance(s.value, ast.JoinedStr):
+            return self.body(stmts, i + 1, env, locs, ind)  # msg = f"..."
+        if isinstance(s, ast.Assign) and len(s.targets) == 1 and isinstance(s.targets[0], ast.Name) and _src(s.value) == "stack.pop()":
+            x = s.targets[0].id
+            l2 = dict(locs)
+            l2[x] = x
+            return f"match stack with\n{ind}| [] => .error (.pyExc .indexError)\n{ind}| {x} :: stack =>\n{ind}  " + P(self.body(stmts, i + 1, env, l2, ind + "  "))
+        if isinstance(s, ast.Expr) and isinstance(s.value, ast.Call) and _src(s.value.func) == "stack.append" and len(s.value.args) == 1:
+            k, t = self.value(s.value.args[0], env, locs)
+            rest = P(self.body(stmts, i + 1, env, locs, ind + "  "))
+            if k == "int":
+                return f"let stack := {t} :: stack\n{ind}" + self.body(stmts, i + 1, env, locs, ind)
+            if k == "lookup":
+                return f"match σ.get? {t} with\n{ind}| none => .error (.keyError {t})\n{ind}| some v =>\n{ind}  (let stack := v :: stack\n{ind}  " + self.body(stmts, i + 1, env, locs, ind + "  ") + ")"
+            return f"match {t} with\n{ind}| .val v =>\n{ind}  (let stack := v :: stack\n{ind}  " + self.body(stmts, i + 1, env, locs, ind + "  ") + f")\n{ind}| r => .error r"
+        if isinstance(s, ast.If):
+            t = s.test
+            # `token in _unary_functions`
+            if isinstance(t, ast.Compare) and len(t.ops) == 1 and isinstance(t.ops[0], (ast.In, ast.NotIn)) and isinstance(t.left, ast.Name) and locs.get(t.left.id, "").startswith("OP:") \
+                    and isinstance(t.comparators[0], ast.Name) and t.comparators[0].id in ("_unary_functions", "_binary_functions", "_functional_operators", "_infix_operators"):
+                setname = {"_unary_functions": "unaryFunctions", "_binary_functions": "binaryFunctions", "_functional_operators": "functionalOperators", "_infix_operators": "infixOperators"}[t.comparators[0].id]
+                c = f"{setname}.contains (opName {locs[t.left.id][3:]})"
+                if isinstance(t.ops[0], ast.NotIn):
+                    c = f"!({c})"
+            else:
+                raise TErr(f"condition `{_src(t)}` inside the evaluation loop")
+            b = self.body(list(s.body) + stmts[i + 1:], 0, env, locs, ind + "  ") if not self.ends(s.body) else self.body(s.body, 0, env, locs, ind + "  ")
+            o = self.body(list(s.orelse) + stmts[i + 1:], 0, env, locs, ind + "  ")
+            return f"if {c} then\n{ind}  {P(b)}\n{ind}else\n{ind}  {P(o)}"
+        raise TErr(f"statement `{_src(s)[:100]}` inside the evaluation loop")
+
+    @staticmethod
+    def ends(stmts) -> bool:
+        return bool(stmts) and isinstance(stmts[-1], (ast.Continue, ast.Raise, ast.Return))
+
+
+def gen_eval(lib_dir: str, header: str) -> str:
+    with open(os.path.join(lib_dir, "_parser.py")) as fh:
+        mod = ast.parse(fh.read(), filename="_parser.py")
+    f = _find_method(mod, "DLTypeDimensionExpression", "evaluate")
+    if [a.arg for a in f.args.args] != ["self", "scope"]:
+        raise TErr("evaluate: parameters")
+    body = [s for s in _strip(f.body) if not (isinstance(s, ast.Expr) and isinstance(s.value, ast.Call) and _src(s.value.func).startswith("_logger."))]
+    ec = EvalComp()
+    env = Env()
+    env.objs["self"] = Obj("dim", "d")
+    env.vars["scope"] = V("σ", "Scope")
+    # prologue
+    if not (body and isinstance(body[0], ast.AnnAssign) and _src(body[0].target) == "stack" and _src(body[0].value) == "[]"):
+        raise TErr("evaluate: expected `stack: list[int] = []` first")
+    loop_i = next((i for i, s in enumerate(body) if isinstance(s, ast.For)), None)
+    if loop_i is None:
+        raise TErr("evaluate: no loop")
+    pro, loop, epi = body[1:loop_i], body[loop_i], body[loop_i + 1:]
+    lines = []
+    for s in pro:
+        if not isinstance(s, ast.If) or s.orelse:
+            raise TErr(f"evaluate: statement before the loop `{_src(s)[:80]}`")
+        c = ec.cond(s.test, env)
+        inner = [x for x in s.body if not (isinstance(x, ast.Assign) and isinstance(x.value, (ast.Constant, ast.JoinedStr)))]
+        if len(inner) == 1 and isinstance(inner[0], ast.Raise):
+            lines.append(f"if {c} then {ec.raise_text(inner[0])} else")
+        elif len(inner) == 1 and isinstance(inner[0], ast.Return) and isinstance(inner[0].value, ast.Subscript) and _src(inner[0].value.value) == "scope":
+            k = ec.c.expr(inner[0].value.slice, env, [])
+            if not (isinstance(k, V) and k.ty == "Name"):
+                raise TErr(f"evaluate: `{_src(inner[0])}`")
+            lines.append(f"if {c} then (match σ.get? {k.text} with | some v => .val v | none => .keyError {k.text}) else")
+        else:
+            raise TErr(f"evaluate: statement before the loop `{_src(s)[:80]}`")
+    if not (isinstance(loop.target, ast.Name) and _src(loop.iter) == "self.parsed_expression" and not loop.orelse):
+        raise TErr("evaluate: the loop is not `for token in self.parsed_expression`")
+    tok = loop.target.id
+    # the isinstance chain
+    chain = []
+    node = loop.body
+    while True:
+        node = [x for x in node if not (isinstance(x, ast.Expr) and isinstance(x.value, ast.Constant))]
+        if len(node) == 1 and isinstance(node[0], ast.If) and isinstance(node[0].test, ast.Call) and _src(node[0].test.func) == "isinstance" \
+                and _src(node[0].test.args[0]) == tok:
+            chain.append((_src(node[0].test.args[1]), node[0].body))
+            node = node[0].orelse
+        else:
+            break
+    if sorted(k for k, _ in chain) != ["_DLTypeOperator", "int", "str"]:
+        raise TErr("evaluate: the loop body is not an isinstance chain over int / str / _DLTypeOperator: " + ", ".join(k for k, _ in chain))
+    inner = [x for x in node if not (isinstance(x, ast.Assign) and isinstance(x.value, (ast.Constant, ast.JoinedStr)))]
+    if not (len(inner) == 1 and isinstance(inner[0], ast.Raise)):
+        raise TErr("evaluate: the final else of the isinstance chain does not raise")
+    arms = {}
+    for k, b in chain:
+        if k == "int":
+            arms["int"] = ec.body(b, 0, env, {tok: "(Int.ofNat n)"}, "    ")
+        elif k == "str":
+            arms["str"] = ec.body(b, 0, env, {tok: "NAME:x"}, "    ")
+        else:
+            arms["op"] = ec.body(b, 0, env, {tok: "OP:o"}, "    ")
+    # epilogue
+    epi = [s for s in epi]
+    if not (len(epi) == 2 and isinstance(epi[0], ast.If) and not epi[0].orelse and isinstance(epi[1], ast.Return) and _src(epi[1].value) == "stack[0]"):
+        raise TErr("evaluate: statements after the loop")
+    t = epi[0].test
+    if not (isinstance(t, ast.Compare) and _src(t.left) == "len(stack)" and len(t.ops) == 1 and isinstance(t.comparators[0], ast.Constant) and isinstance(t.comparators[0].value, int)):
+        raise TErr(f"evaluate: `{_src(t)}`")
+    sym = {ast.NotEq: "≠", ast.Eq: "=", ast.Lt: "<", ast.Gt: ">", ast.LtE: "≤", ast.GtE: "≥"}.get(type(t.ops[0]))
+    inner = [x for x in epi[0].body if not (isinstance(x, ast.Assign) and isinstance(x.value, (ast.Constant, ast.JoinedStr)))]
+    if sym is None or not (len(inner) == 1 and isinstance(inner[0], ast.Raise)):
+        raise TErr("evaluate: the stack-size test")
+    out = header
+    out += "import DltypeModel.Eval\nimport DltypeModel.PyPrims\nimport DltypeModel.Generated.ParserTables\nimport DltypeModel.Generated.OpSemantics\nset_option linter.unusedVariables false\nnamespace Dltype.Gen\nopen Dltype\n\n"
+    out += OPNAME
+    out += "/-- one iteration of the loop of `DLTypeDimensionExpression.evaluate` (stack top at the head) -/\n"
+    out += "def evalStep (token : PItem) (stack : List Int) (σ : Scope) : Except EvalResult (List Int) :=\n  match token with\n"
+    out += f"  | .int n =>\n    {arms['int']}\n  | .str x =>\n    {arms['str']}\n  | .op o =>\n    {arms['op']}\n\n"
+    out += EVAL_SKELETON
+    out += "/-- `DLTypeDimensionExpression.evaluate(scope)` -/\n"
+    out += "def evaluateDim (d : DimExpr) (σ : Scope) : EvalResult :=\n"
+    for l in lines:
+        out += "  " + l + "\n"
+    out += "  match evalLoop d.post [] σ with\n  | .error r => r\n  | .ok stack =>\n"
+    out += f"    if decide (stack.length {sym} {t.comparators[0].value}) then {ec.raise_text(inner[0])} else\n"
+    out += "    match stack.getLast? with\n    | some v => .val v\n    | none => .pyExc .indexError\n\n"
     out += "end Dltype.Gen\n"
     return out
